@@ -21,6 +21,7 @@ TEMPLATES = None
 def templates(t, step):
     rng = t.rng
     f = rng.choice(t.files)
+    t.cur_f = f
     br = rng.choice(t.branches)
     m = "m%d" % step
     return [
@@ -53,7 +54,39 @@ def templates(t, step):
         ("config", "user.name"), ("config", "--local", "x.y", "z%d" % step), ("update-index", "--refresh"), ("diff-tree", "-r", "HEAD"),
         ("grep", "line", "--", f), ("shortlog", "-s", "HEAD"), ("whatchanged", "-1"), ("apply", "--check", "/dev/null"), ("bisect", "log"),
         ("range-diff", "HEAD~1..HEAD", "HEAD~1..HEAD"), ("commit-tree", "HEAD^{tree}", "-m", "ct"), ("hash-object", f), ("check-ignore", f),
+        # commands that read the user's standard input (see stdin_for): the proxy must leave it to git, unread
+        ("reset", "-q", "--pathspec-from-file=-"), ("reset", "--pathspec-from-file=-", "--pathspec-file-nul"), ("add", "--pathspec-from-file=-"),
+        ("commit", "-q", "-m", m, "--pathspec-from-file=-"), ("checkout", "--pathspec-from-file=-"), ("restore", "--pathspec-from-file=-"),
+        ("restore", "--staged", "--pathspec-from-file=-"), ("stash", "push", "--pathspec-from-file=-"), ("rm", "-q", "--cached", "--pathspec-from-file=-"),
+        ("hash-object", "--stdin"), ("hash-object", "-w", "--stdin"), ("update-index", "--add", "--stdin"), ("checkout-index", "-f", "--stdin"),
+        ("notes", "add", "-f", "-F", "-", "HEAD"), ("tag", "-a", "st%d" % step, "-F", "-"), ("update-ref", "--stdin"), ("cat-file", "--batch-check"),
+        ("commit-tree", "HEAD^{tree}"), ("diff-tree", "--stdin"), ("rev-list", "--stdin"), ("check-ignore", "--stdin"), ("stripspace",), ("apply", "--check", "-"),
+        ("interpret-trailers", "--trailer", "Reviewed-by: x"), ("check-attr", "--stdin", "-a"), ("merge", "-q", "-F", "-", "--no-ff", br),
     ]
+
+
+def stdin_for(c, t, f, step):
+    """Bytes fed to the command's standard input (None: the command does not read it)."""
+    j = " ".join(c)
+    if c[-2:] == ("-F", "-") or j.startswith("tag -a st") or j.startswith("notes add -f -F -") or j.startswith("merge -q -F -"):
+        return b"msg from stdin\n\nbody line\n"
+    if "--pathspec-file-nul" in c:
+        return f.encode() + b"\0"
+    if any(a == "--pathspec-from-file=-" for a in c) or j in ("update-index --add --stdin", "checkout-index -f --stdin", "check-ignore --stdin", "check-attr --stdin -a"):
+        return f.encode() + b"\n"
+    if c[:1] == ("hash-object",) and "--stdin" in c:
+        return ("content %d of %s\n" % (step, f)).encode()
+    if j == "update-ref --stdin":
+        return ("create refs/heads/ur%d HEAD\n" % step).encode()
+    if j in ("cat-file --batch-check", "diff-tree --stdin", "rev-list --stdin"):
+        return b"HEAD\n"
+    if j == "commit-tree HEAD^{tree}":
+        return b"tree commit message from stdin\n"
+    if j == "stripspace" or j.startswith("interpret-trailers"):
+        return b"subject  \n\n\n  body   \n\n"
+    if j == "apply --check -":
+        return b"this is not a patch\n"
+    return None
 
 
 ALIASES = [("st", "status -s"), ("ci", "commit -q"), ("lg", "log --oneline -3"), ("rec", "st"), ("sh-alias", "!echo from-shell-alias"),
@@ -96,7 +129,9 @@ def run_case(case):
                 t.branches.append(c[-1])
             first = next((a for a in c if not a.startswith("-") and a not in (".", "dir", ".git") and "=" not in a), c[0])
             key_ = c[0] if c[0] in NOCOMPARE_STDOUT else first
-            inp = b"msg from stdin\n" if c[-2:] == ("-F", "-") else None
+            inp = stdin_for(c, t, t.cur_f, step)
+            if inp is not None:
+                t.stats["stdin_fed_commands"] = t.stats.get("stdin_fed_commands", 0) + 1
             t.run(*c, compare_stdout=(key_ not in NOCOMPARE_STDOUT and c[0] not in NOCOMPARE_STDOUT), input=inp)
             used.append(" ".join(a for a in c[:3] if not a.startswith("m") and not a[-1:].isdigit()))
         viol = []
